@@ -5,12 +5,16 @@ import TracklibVerif.Lemmas.TextIOWktFile
 /-! # C13 — tracks and networks written to file are read back unchanged
 
 Theorems about the model `TV.TextIO` (`Model/TextIO.lean`), which mirrors
-`TrackWriter.writeToFile` / `TrackReader.__readFromCsv` (including `read_all`), `ObsTime.__str__` / `readTimestamp`,
-`NetworkWriter.writeToCsv` / `NetworkReader.readFromFile`, `Track.toWKT` / `TrackReader.parseWkt`,
-`TrackWriter.writeToGpx` (with and without `af=True`) / `TrackReader.__readFromGpx`.
-Numbers are scaled integers: `v : SNum` at `d` decimals stands for the float `±mag / 10^d`, which is what
-Python's `format` prints on that lattice (that contract, `float()` and the rounding of off-lattice
-values are exercised by the correspondence check, not proved). -/
+`TrackWriter.writeToFile` (also with every argument at its default) / `writeToCsv` / `TrackReader.__readFromCsv` (including
+`read_all` and the directory branch of `readFromFile`), `ObsTime.__str__` / `readTimestamp`,
+`NetworkWriter.writeToCsv` / `NetworkReader.readFromFile`, `Track.toWKT` / `TrackReader.parseWkt` / `TrackReader.readFromWkt`,
+`TrackWriter.writeToGpx` (with and without `af=True`, a track or a collection in one file) / `TrackReader.__readFromGpx`.
+Numbers are decimals in sign–magnitude form: `v : SNum` at `d` decimals stands for the float `±mag / 10^d`. The fixed-point
+formats of the CSV / GPX writers print it exactly on that lattice; `str(float)` (WKT, network geometries, feature values) prints
+the shortest round-trip decimal of ANY finite double — positionally or, below `1e-4` and from `1e16`, in exponent notation
+(`reprFloat`) — and `float()` reads both (`parseDec?`, with an exponent part). That contract (`format`'s rounding of off-lattice
+values, `repr`'s choice of the shortest digits, `float()`'s correctly rounded conversion) is exercised by the correspondence
+check, not proved. -/
 namespace TV.C13
 open TV.TextIO TV.ObsTime
 
@@ -366,6 +370,16 @@ theorem wkt_vertex_value (d : Nat) (p : Pt) :
 
 /-- what `parseWkt` works on: `wkt.upper()` of the exported text is the same text with the exponent marker `E` -/
 theorem wkt_upper (d : Nat) (pts : List Pt) : toUpper (toWKT d pts) = toWKTE 'E' d pts := toUpper_toWKT d pts
+
+/-- **`polygon_parse`**: a one-ring polygon text in the canonical layout `POLYGON((x y,x y,…))` — which tracklib never writes but
+other tools do — whose ordinates are printed as `str(float)` prints them (any magnitude) is parsed by `TrackReader.parseWkt` as
+the vertices of its ring, in order, each with the coordinates written. -/
+theorem polygon_parse (d : Nat) (pts : List Pt) (hne : pts ≠ []) :
+    parseWkt (toPolyWKT 'e' d pts) = .ok (pts.map (expVertex d)) :=
+  TV.TextIO.polygon_parse d pts hne
+
+example : toPolyWKT 'e' 5 [(0, 0), (150000, 0), (150000, 1), (0, 0)] = "POLYGON((0.0 0.0,1.5 0.0,1.5 1e-05,0.0 0.0))".toList := by
+  decide +kernel
 
 /-- **WKT file** `wkt_file_roundtrip`: tracks exported with `toWKT` and stored one per line in a csv file — `uid sep tid sep
 "LINESTRING(…)"`, the layout `TrackReader.readFromWkt(path, 2, 0, 1, sep, h, doublequote=…)` reads; with or without a header line,
